@@ -195,38 +195,38 @@ def c08_jobs(tier):
     L = 4 if tier == "quick" else 5
     return [
         des("resource", "progress", b, dl, procs=3, prios="0,1,2", budget=L, res=1,
-            ops="racq0,rrel0,rpre0,hold0,hold1,tadd1,int0,int1,int2,stop1,stop0,exit",
+            ops="racq0,rrel0,rpre0,hold0,hold1,tadd1,tadd1u,int0,int1,int2,stop1,stop0,exit",
             script="racq0,hold1,rrel0"),
         des("pool", "progress", b, dl, procs=3, prios="0,1,2", budget=L, pool=3,
-            ops="pacq1,pacq2,ppre2,prel1,prel2,hold0,hold1,tadd1,int0,int1,stop0,stop1,exit",
+            ops="pacq1,pacq2,ppre2,prel1,prel2,hold0,hold1,tadd1,tadd1u,int0,int1,stop0,stop1,exit",
             script="pacq2,hold1,prel2"),
         des("buffer", "progress", b, dl, procs=3, prios="0,1,1", budget=L, buf=3,
-            ops="bput1,bput2,bput5,bget1,bget2,bget5,hold0,hold1,tadd1,int0,int1,stop0,stop1,exit",
+            ops="bput1,bput2,bput5,bget1,bget2,bget5,hold0,hold1,tadd1,tadd1u,int0,int1,stop0,stop1,exit",
             script0="bput2,hold1,bput2", script1="bget1,hold1,bget2", script2="bget2,bput1"),
         des("objectqueue", "progress", b, dl, procs=3, prios="0,1,1", budget=L, oq=1,
-            ops="oqput0,oqget,hold0,hold1,tadd1,int0,int1,stop0,stop1,exit",
+            ops="oqput0,oqget,hold0,hold1,tadd1,tadd1u,int0,int1,stop0,stop1,exit",
             script0="oqput0,oqput0,hold1", script1="oqget,hold1,oqget", script2="oqget,oqput0"),
         des("objectqueue-cap2-p4", "progress", b, dl, procs=4, prios="0,0,1,1", budget=3, oq=2,
-            ops="oqput0,oqget,hold0,hold1,tadd1,int0,int1,stop0,exit",
+            ops="oqput0,oqget,hold0,hold1,tadd1,tadd1u,int0,int1,stop0,exit",
             script0="oqput0,oqput0,oqput0", script1="oqput0,oqput0", script2="hold1,oqget,oqget", script3="hold1,oqget"),
         des("priorityqueue-cap2-p4", "progress", b, dl, procs=4, prios="0,0,1,1", budget=3, pq=2,
-            ops="pqput0,pqput1,pqget,pqcancel,hold0,hold1,tadd1,int0,int1,stop0,exit",
+            ops="pqput0,pqput1,pqget,pqcancel,hold0,hold1,tadd1,tadd1u,int0,int1,stop0,exit",
             script0="pqput0,pqput1,pqput0", script1="pqput1,pqput0", script2="hold1,pqget,pqget", script3="hold1,pqget"),
         des("buffer-cap2-p4", "progress", b, dl, procs=4, prios="0,0,1,1", budget=3, buf=2,
-            ops="bput1,bput2,bget1,bget2,hold0,hold1,tadd1,int0,int1,stop0,exit",
+            ops="bput1,bput2,bget1,bget2,hold0,hold1,tadd1,tadd1u,int0,int1,stop0,exit",
             script0="bput2,bput1", script1="bput1,bput1", script2="hold1,bget1,bget1", script3="hold1,bget1"),
         des("pool-cap2-p4", "progress", b, dl, procs=4, prios="0,0,1,1", budget=3, pool=2,
-            ops="pacq1,pacq2,prel1,prel2,hold0,hold1,tadd1,int0,int1,stop0,exit",
+            ops="pacq1,pacq2,prel1,prel2,hold0,hold1,tadd1,tadd1u,int0,int1,stop0,exit",
             script0="pacq2,hold1,prel1,prel1", script1="pacq1,hold1", script2="pacq1,hold1", script3="hold1,pacq1"),
         # amounts in the 64-bit range (a pool of bytes): 4 Gi and 8 Gi units
         des("pool-huge", "progress", b, dl, procs=3, prios="0,1,1", budget=4, pool=8589934592,
-            ops="pacq4294967296,pacq8589934592,pacq1,prel4294967296,prel1,hold0,hold1,tadd1,int1,stop0,exit",
+            ops="pacq4294967296,pacq8589934592,pacq1,prel4294967296,prel1,hold0,hold1,tadd1,tadd1u,int1,stop0,exit",
             script0="pacq8589934592,hold1,prel4294967296,hold1", script1="pacq4294967296,hold1", script2="hold1,pacq4294967296"),
         des("resource-and-pool", "progress", b, dl, procs=3, prios="0,1,2", budget=4, res=1, pool=2,
             ops="racq0,rrel0,rpre0,pacq1,pacq2,ppre2,prel1,prel2,hold0,hold1,int0,stop0,exit",
             script0="pacq2,racq0,hold2", script1="hold1,racq0,hold1", script2="hold1,ppre2,hold1"),
         des("priorityqueue", "progress", b, dl, procs=3, prios="0,1,1", budget=L, pq=1,
-            ops="pqput0,pqput1,pqget,pqcancel,hold0,hold1,tadd1,int0,int1,stop0,stop1,exit",
+            ops="pqput0,pqput1,pqget,pqcancel,hold0,hold1,tadd1,tadd1u,int0,int1,stop0,stop1,exit",
             script0="pqput0,pqput1,hold1", script1="pqget,hold1,pqget", script2="pqget,pqput0"),
     ]
 
@@ -243,7 +243,7 @@ spec("C08", jobs=c08_jobs,
 
 
 # ----------------------------------------------------------------------------- C04
-C04_OPS = ("hold0,hold1,hold2,tadd1,tadd2u,tset1,tcancel0,tclear,yield,resume0,resume1s,waitp0,waitp1,"
+C04_OPS = ("hold0,hold1,hold2,tadd1,tadd2u,tset1u,tcancel0,tclear,yield,resume0,resume1s,waitp0,waitp1,"
            "int0,int1,int1h,stop0,stop1,stopself,exit,evsched1,waite0,evcancel0")
 
 
@@ -362,11 +362,17 @@ def c06_jobs(tier):
         # every priority assignment to 6 (7) waiters x every leaver x {cancel, timeout} x two late arrivals: service order
         dict(name="guardorder-6", harness="c10_ramps", opts=dict(mode="guardorder", prop="c06", n=6), bound_min=0, bound_max=0,
              deadline=600, crash_is_violation=True, recycle=2000, run_timeout=60),
+        # the same with all arrivals in one instant (ties in priority and waiting time are settled by order of arrival)
+        dict(name="guardorder-6-same-instant", harness="c10_ramps", opts=dict(mode="guardorder", prop="c06", n=6, together=1),
+             bound_min=0, bound_max=0, deadline=600, crash_is_violation=True, recycle=2000, run_timeout=60),
         des("ramp9", "order", 1, dl, procs=6, prios="0,1,2,1,0,2", budget=2, res=1,
             ops="racq0,rrel0,hold1,hold2,prio0.2,prio4.1", script="racq0,hold1"),
     ]
     if tier != "quick":
         jobs.append(dict(name="guardorder-8", harness="c10_ramps", opts=dict(mode="guardorder", prop="c06", n=8), bound_min=0,
+                         bound_max=0, deadline=2400, crash_is_violation=True, recycle=2000, run_timeout=60))
+        jobs.append(dict(name="guardorder-8-same-instant", harness="c10_ramps",
+                         opts=dict(mode="guardorder", prop="c06", n=8, together=1), bound_min=0,
                          bound_max=0, deadline=2400, crash_is_violation=True, recycle=2000, run_timeout=60))
     return jobs
 
@@ -410,6 +416,11 @@ def c07_jobs(tier):
                     ops="pacq4294967296,pacq8589934592,pacq1,ppre4294967296,prel4294967296,prel1,hold0,hold1,int0,exit",
                     script0="pacq8589934592,hold1,prel4294967296", script1="pacq4294967296,hold1,prel4294967296",
                     script2="hold1,ppre4294967296,hold1"))
+    # holdings in the upper half of the 64-bit range (2^63 + n units of a pool of 2^64 - 1)
+    jobs.append(des("cap-max", "pool", b, dl, procs=3, prios="0,1,2", budget=4, pool="max",
+                    ops="pacq1000h,pacq1,pacq400,ppre400,ppre1000h,prel400,prel600,prel1,prel1000h,hold0,hold1,int0,exit",
+                    script0="pacq1000h,prel400,hold1,prel600", script1="pacq400,hold1,prel400",
+                    script2="hold1,ppre400,hold1"))
     # a pool acquisition in progress that is ended by the preemption of a RESOURCE the caller holds
     jobs.append(des("cap2-with-resource", "pool", b, dl, procs=3, prios="0,1,2", budget=4, pool=2, res=1,
                     ops="pacq1,pacq2,ppre2,prel1,prel2,racq0,rpre0,rrel0,hold0,hold1,int0,exit",
@@ -446,6 +457,14 @@ def c09_jobs(tier):
             script0="racq0,hold2", script1="racq0,hold1", script2="hold1,stop1,start1"),
         des("selfstop-p2", "endoflife", b, dl, procs=2, prios="0,0", budget=4, res=1, pool=2, ops=ops,
             script0="racq0,pacq2,tadd1,stopself", script1="waitp0,racq0,hold1"),
+        # what the ended process held is also offered to those who wait for it through an observing condition
+        # (nobody queued at the resource or pool itself)
+        des("observed-resource-p3", "endoflife,condition", b, dl, procs=3, prios="0,1,2", budget=3, res=1, cond=1,
+            subscribe="res", ops="racq0,rrel0,cwait3,hold0,hold1,stop0,stopself,exit,return,int0",
+            script0="racq0,hold1,exit", script1="cwait3,hold1", script2="hold1,stop0,hold1"),
+        des("observed-pool-p3", "endoflife,condition", b, dl, procs=3, prios="0,1,2", budget=3, pool=2, cond=1,
+            subscribe="pool", ops="pacq1,pacq2,prel1,cwait4,hold0,hold1,stop0,stopself,exit,return,int0",
+            script0="pacq2,hold1,exit", script1="cwait4,hold1", script2="hold1,stop0,hold1"),
         # several holders of different amounts, one of them ends while a waiter wants more than is free
         des("pool-holders-p4", "endoflife", b, dl, procs=4, prios="0,1,2,1", budget=3, pool=6,
             ops="pacq1,pacq2,pacq3,prel1,hold0,hold1,stop0,stop1,stop2,stopself,exit,return,int0,waitp0",
@@ -490,6 +509,14 @@ def c11_jobs(tier):
         des("cap2-with-resource", "buffer", b, dl, procs=3, prios="0,1,2", budget=4, buf=2, res=1,
             ops="bput1,bput2,bput5,bget1,bget2,bget5,racq0,rpre0,rrel0,hold0,hold1,int0,exit",
             script0="racq0,bput5,hold1", script1="hold2,bget1,hold1", script2="hold1,rpre0,hold2"),
+        # a timeout that falls in the very instant of an offer (the partner runs first, the timer fires before the wake-up
+        # of the offer): the call ends there and then with what it had; monitored for the accounting and for the notification
+        des("cap2-timeout-meets-offer-get", "buffer,notif", b, dl, procs=3, prios="0,1,1", budget=4, buf=2,
+            ops="bput1,bput2,bget1,bget2,bget5,hold0,hold1,hold2,tadd1,tadd1u,tadd2,int0,exit",
+            script0="tadd1,bget2,hold1", script1="hold1,bput1,hold1", script2="hold2,bput1,hold1"),
+        des("cap2-timeout-meets-offer-put", "buffer,notif", b, dl, procs=3, prios="0,1,1", budget=4, buf=2,
+            ops="bput1,bput2,bput5,bget1,bget2,hold0,hold1,hold2,tadd1,tadd1u,tadd2,int0,exit",
+            script0="bput2,tadd1,bput2,hold1", script1="hold1,bget1,hold1", script2="hold2,bget1,hold1"),
         des("cap2-thief-put", "buffer", b, dl, procs=2, prios="0,0", budget=8, buf=2,
             ops="bput1,bput2,bget1,bget2,hold0,hold1,int0,int1,exit",
             script0="bput2,hold1,bget2,bput2,hold1,bget2,bput2,hold1", script1="bput2,hold1"),
@@ -528,6 +555,11 @@ def c12_jobs(tier):
     jobs.append(des("priorityqueue-wide-priorities", "queue", b, dl, procs=3, prios="0,0,1", budget=4, pq="max", ops=wide,
                     script0="pqput0,pqput3000000000,pqput4294967296,hold1", script1="pqput-3000000000,pqput9223372036854775807,hold1",
                     script2="hold1,pqget,pqget,pqget"))
+    # queues longer than the initial 8 slots: every two-level priority assignment to 12 (13, 14) objects x every object
+    # cancelled / moved to the top / moved to the bottom: positions and delivery order against the model
+    for n in ((12,) if tier == "quick" else (12, 13, 14)):
+        jobs.append(dict(name="pqorder-%d" % n, harness="c10_ramps", opts=dict(mode="pqorder", prop="c12", n=n), bound_min=0,
+                         bound_max=0, deadline=1200, crash_is_violation=True, recycle=2000, run_timeout=60))
     # blocked producers / consumers that are told PREEMPTED because they lost a resource they hold
     jobs.append(des("objectqueue-with-resource", "queue", b, dl, procs=3, prios="0,1,2", budget=4, oq="1", res=1,
                     ops="oqput0,oqput0n,oqget,racq0,rpre0,rrel0,hold0,hold1,int0,exit",
@@ -849,13 +881,18 @@ def c03_jobs(tier):
     def j(name, cfg, **o):
         return dict(name=name, harness="c03_coroutine", cfg=cfg, opts=o, bound_min=0, bound_max=0, deadline=1500,
                     crash_is_violation=True, recycle=5000)
+    # the same clause one layer up: what a timer, an interrupt or a resume hands to a suspended *process* is what its
+    # blocking call returns, all 64 bits of it (signals with zero low halves, beyond 2^40, next to the ends of the type)
+    msg = des("process-messages-p2", "notif", 3 if tier == "quick" else 4, 600, procs=2, prios="0,0", budget=3,
+              ops="hold0,hold1,hold2,tadd1u,tadd2u,tset1u,tset2u,tcancel0,yield,resume0,resume1s,int0,int1,int1h,int2,waitp1,exit",
+              script0="tadd1u,hold2,hold1", script1="tadd2u,yield,hold1")
     if tier == "quick":
-        return [j("api-n2-d6-asan", "asan", mode="api", ncor=2, depth=6),
+        return [msg, j("api-n2-d6-asan", "asan", mode="api", ncor=2, depth=6),
                 j("api-n2-d7-O2", "rel", mode="api", ncor=2, depth=7),
                 j("api-n3-d5-O3", "rel3", mode="api", ncor=3, depth=5),
                 j("seam-k2-d12-O2", "rel", mode="seam", ncor=2, depth=12),
                 j("seam-k3-d9-O3", "rel3", mode="seam", ncor=3, depth=9)]
-    return [j("api-n2-d8-asan", "asan", mode="api", ncor=2, depth=8),
+    return [msg, j("api-n2-d8-asan", "asan", mode="api", ncor=2, depth=8),
             j("api-n3-d7-O2", "rel", mode="api", ncor=3, depth=7),
             j("api-n3-d7-O3", "rel3", mode="api", ncor=3, depth=7),
             j("seam-k3-d11-O2", "rel", mode="seam", ncor=3, depth=11),
